@@ -17,7 +17,7 @@ from harness.common import guard, vint
 FUNCTIONS = ["ckl.interpreter.Interpreter.interpret", "ckl.nodes.NodeRequire.evaluate",
              "ckl.functions.Environment.pushModuleStack/popModuleStack/getModules/put/set/get",
              "ckl.nodes.NodeDef/NodeAssign/NodeFor/NodeBlock"]
-OUTSIDE = ["quick tier: the last command of a 3-command history is one of 12 observer commands", "histories longer than the bound (the unit step argues for the module stack only)",
+OUTSIDE = ["quick tier: the last command of a 3-command history is one of 14 observer commands", "histories longer than the bound (the unit step argues for the module stack only)",
            "more than two interpreter instances", "random long histories"]
 REACH = {"history", "step"}
 
@@ -28,12 +28,17 @@ CMDS = [
     "require missing_mod", "require broken", "broken->before_failure", "require badsyntax", "require cyc_a",
     "require needs_broken", "for i in [1, 2, 3] do def qq = i; if i == 2 then error 'stop' end", "qq",
     "require other; other->via_good()", "length(load_log)",
+    # class definitions: a definition whose member initialiser fails defines (and redefines) nothing
+    "def class K do def v = 10; def get(self) self->v end; 'k'",
+    "def class K do def v = 20; def w = undefined_zz; def get(self) 0 end; 'k2'", "K->get()",
+    "def class G do def low = 1; def high = error 'boom' end", "G->low",
 ]
 
 
 # commands that observe the session state (quick tier: the last command of a history is one of these)
 OBSERVERS = ["a", "f(2)", "[b, c]", "good->get()", "qq", "length(load_log)", "require broken", "require cyc_a",
-             "require good; good->inc()", "require needs_broken", "require other; other->via_good()", "a = a + 1"]
+             "require good; good->inc()", "require needs_broken", "require other; other->via_good()", "a = a + 1",
+             "K->get()", "G->low"]
 
 
 def bounds(tier):
@@ -148,6 +153,17 @@ class Model:
             self.modules.add("other")
             self.good_count += 1
             return ("ok", str(self.good_count))
+        if cmd.startswith("def class K do def v = 10"):
+            d["K"] = 10
+            return ("ok", "'k'")
+        if cmd.startswith("def class K do def v = 20"):
+            return self.E
+        if cmd == "K->get()":
+            return ("ok", str(d["K"])) if "K" in d else self.E
+        if cmd.startswith("def class G"):
+            return ("err", "boom")
+        if cmd == "G->low":
+            return self.E
         if cmd == "length(load_log)":
             return ("ok", str(len(self.loaded)))
         raise AssertionError(cmd)
